@@ -299,7 +299,7 @@ func oracle(s Session, idx int, res *lib.Result) {
 		it := s.Items[i]
 		what := it.Text
 		if it.Kind == "http" {
-			what = fmt.Sprintf("%s %s body=%q", it.Method, it.Path, it.Body)
+			what = fmt.Sprintf("%s %s chunked=%v content-type=%q body=%q", it.Method, it.Path, it.Chunked, it.CType, trunc(it.Body))
 		}
 		if len(what) > 300 {
 			what = what[:300] + "..."
@@ -360,8 +360,14 @@ func oracle(s Session, idx int, res *lib.Result) {
 					setsAPI = true
 				}
 			}
-			if prev.Dests["apiRule"] == cfg && !setsAPI && o.Dests["apiRule"] != cfg {
-				bad(i, "api-rule-lost", fmt.Sprintf("apiRule was %v before the command and is %v after it", cfg, o.Dests["apiRule"]))
+			_, had := prev.Dests["apiRule"]
+			_, has := o.Dests["apiRule"]
+			switch {
+			case had && !has:
+				// over the control connection the rule that carries it must never go away
+				bad(i, "api-rule-removed", fmt.Sprintf("the rule listing contained apiRule before the command and does not after it (listing now: %v)", sortedKeys(o.Dests)))
+			case prev.Dests["apiRule"] == cfg && !setsAPI && o.Dests["apiRule"] != cfg:
+				bad(i, "api-rule-changed", fmt.Sprintf("apiRule was %v before the command and is %v after it", cfg, o.Dests["apiRule"]))
 			}
 		}
 		prev = o
@@ -457,6 +463,12 @@ func main() {
 			res.Evaluations++
 			if it.Kind == "http" {
 				res.Count("http-requests")
+				if it.Chunked {
+					res.Count("http-body-chunked")
+				} else {
+					res.Count("http-body-content-length")
+				}
+				res.Count("http-content-type:" + it.CType)
 				res.Count(fmt.Sprintf("http-status:%d", o.Status))
 				if _, ok := routed(it); ok {
 					res.Count("http-routed-to-rule-handler")
